@@ -116,6 +116,10 @@ def fieldProp (i : Nat) : String :=
   else if i == 14 then "C07"
   else "C04,C05,C09"
 
+/-- union of comma-separated property tags -/
+def unionProps (l : List String) : String :=
+  ",".intercalate ((l.flatMap (·.splitOn ",")).eraseDups)
+
 /-- the specification: clamp of the true census over the delivered objects -/
 def specNumbers (r : Repo) (D : List Nat) (nrefs : Nat) : List Nat :=
   let c := census r D
@@ -187,7 +191,7 @@ def graphEngine : Engine := fun inp obs =>
         -- 1. numbers
         let bad := (List.range spec.length).filter fun i => nums.getD i 0 != spec.getD i 0
         if let some i := bad.head? then
-          .viol (fieldProp i) s!"{fieldNames.getD i "?"} = {nums.getD i 0}, true value clamped = {spec.getD i 0}"
+          .viol (unionProps (bad.map fieldProp)) (", ".intercalate (bad.map fun i => s!"{fieldNames.getD i "?"} = {nums.getD i 0}, true value clamped = {spec.getD i 0}"))
         else
         -- 2. memos
         let tn := expandTable (PN r) r.length
